@@ -161,8 +161,169 @@ def props_timeout(E, res):
     return P
 
 
+def run_auth(E):
+    rt, rtref = new_rt(E)
+    cdp = LazyV('cdp', 'deal::ClientDealProposal')
+    E.ctx.env['cdp'] = cdp
+    fn = find_fn(E, MARKET, 'deal_proposal_is_internally_valid')
+    return E.run_function(fn, [rtref, RefV(Cell(cdp, 'cdp'), ())]), rt
+
+
+def props_auth(E, res):
+    env = res.ctx.env
+    rt = env['rt']
+    ctx = res.ctx
+    if res.kind != 'return':
+        return [('no panic (%s)' % str(res.info)[:60], False)]
+    if is_err(res.value):
+        return [('a refused proposal changes nothing', rt.commits == 0)]
+    ST, DPF, DSF = F()
+    prop = fget(E, env['cdp'], 0, DP)
+    client = fget(E, prop, DPF['client'], ADDR)
+    P = [('exactly one authentication request', len(rt.sends) == 1)]
+    if len(rt.sends) == 1:
+        s = rt.sends[0]
+        P.append(('the request went to the proposal\'s client', addr_eq(s.to, client)))
+        P.append(('AuthenticateMessage (FRC-42 2643134072), read-only, no value', b_and(zv(s.method) == 2643134072, s.value == 0)))
+        P.append(('the client actor answered successfully', s.ok is True))
+        # the answer: a block that decodes to `true`
+        ans = None
+        for k, v in ctx.memo.items():
+            if isinstance(k, tuple) and len(k) == 3 and k[0] == 'mat' and k[2].startswith('rt.send[0].ret') and k[2].endswith('.as<bool>'):
+                ans = v
+        P.append(('accepted only when the client\'s answer is true', bool_of(ans) if ans is not None else False))
+        # the signed message is the serialised proposal, the signature the one supplied with it
+        pr = s.params.obj if isinstance(s.params, BlockV) else None
+        P.append(('the request carries typed params', pr is not None))
+    return P
+
+
+# ---- batch_activate_deals ---------------------------------------------------------------------------------
+
+def run_batch_activate(shape):
+    """shape: number of deal ids per sector, e.g. [3] or [1, 1]"""
+    def run(E):
+        rt, rtref = new_rt(E)
+        rt.state = LazyV('st', 'State')
+        E.ctx.env['lazy_vec_lens'] = [0, 1]      # deal ids already recorded for the sector: none or one
+        ST, DPF, DSF = F()
+
+        def hook(E2, m, kt, val):
+            # market invariant: stored proposals carry resolved (ID) client and provider addresses
+            if m.base == 'map(st.%d)' % ST['proposals']:
+                E2.ctx.assume(z3.And(fget(E2, val, DPF['client'], ADDR).proto == 0, fget(E2, val, DPF['provider'], ADDR).proto == 0))
+            return None
+        E.ctx.env['map_value_hook'] = hook
+        ids = []
+        sectors = []
+        for i, n in enumerate(shape):
+            dl = [E.materialize('u64', 's%d.deal%d' % (i, j)) for j in range(n)]
+            ids.append([d.v for d in dl])
+            se = E.materialize('i64', 's%d.expiry' % i)
+            sectors.append(StructV('types::SectorDeals', {0: E.materialize('u64', 's%d.number' % i), 1: LazyV('s%d.type' % i, 'fvm_shared::sector::RegisteredSealProof'),
+                                                          2: se, 3: VecV(dl, 'Vec<u64>')}))
+        params = StructV('types::BatchActivateDealsParams', {0: VecV(sectors, 'Vec<SectorDeals>'), 1: False})
+        E.ctx.env.update(dict(ids=ids, sectors=sectors))
+        fn = find_fn(E, MARKET, 'batch_activate_deals')
+        return E.run_function(fn, [rtref, params]), rt
+    return run
+
+
+def props_batch_activate(E, res):
+    env = res.ctx.env
+    ctx = res.ctx
+    rt = env['rt']
+    if res.kind != 'return':
+        return [('no panic (%s)' % str(res.info)[:60], False)]
+    if is_err(res.value):
+        return [('a failed batch commits nothing', rt.commits == 0)]
+    ST, DPF, DSF = F()
+    r = E.deref(res.value.fields[('Ok', 0)])
+    RF = Fields('actors/market/src/types.rs', 'BatchActivateDealsResult')
+    acts = E.deref(fget(E, r, RF['activations'], 'Vec<SectorDealActivation>'))
+    br = E.deref(fget(E, r, RF['activation_results'], 'BatchReturn'))
+    nsucc = zv(E.deref(fget(E, br, 0, 'u32')))
+    fails = E.deref(fget(E, br, 1, 'Vec<FailCode>')).items
+    failed_idx = set()
+    for f in fails:
+        f = E.deref(f)
+        i = zv(E.deref(f.fields[0]))
+        if is_sym(i):
+            raise Inconclusive('symbolic fail index')
+        failed_idx.add(int(i))
+    ids = env['ids']
+    ok_sectors = [i for i in range(len(ids)) if i not in failed_idx]
+    P = [('one activation record per successful sector', len(acts.items) == len(ok_sectors) and implied(ctx, nsucc == len(ok_sectors)))]
+    P.append(('only a miner actor activates deals', rt.caller_type == ACTOR_TYPES['Miner']))
+    activated = [(i, j, d) for i in ok_sectors for j, d in enumerate(ids[i])]
+    for a in range(len(activated)):
+        for b in range(a + 1, len(activated)):
+            P.append(('no deal is activated twice in one batch (sector %d deal %d vs sector %d deal %d)' % (activated[a][0], activated[a][1], activated[b][0], activated[b][1]),
+                      activated[a][2] != activated[b][2]))
+    st1 = rt.state
+    sm = heap_get(E, fget(E, st1, ST['states'], CID))
+    for k, i in enumerate(ok_sectors):
+        a = E.deref(acts.items[k])
+        alist = E.deref(fget(E, a, 0, 'Vec<ActivatedDeal>'))
+        P.append(('every requested deal of a successful sector is activated', len(alist.items) == len(ids[i])))
+        se = zv(env['sectors'][i].fields[2])
+        for j, d in enumerate(ids[i]):
+            kt = ('int', d)
+            present, prop = base_lookup(E, 'map(st.%d)' % ST['proposals'], kt)
+            P.append(('an activated deal was published (proposal on record)', present is True))
+            sb, _ = base_lookup(E, 'map(st.%d)' % ST['states'], kt)
+            P.append(('an activated deal had not been activated before', sb is False))
+            if present is True:
+                prop = E.deref(prop)
+                provider = fget(E, prop, DPF['provider'], ADDR)
+                start = fget(E, prop, DPF['start_epoch'], 'i64').v
+                end = fget(E, prop, DPF['end_epoch'], 'i64').v
+                P.append(('activated by the deal\'s own provider', addr_eq(provider, rt.caller)))
+                P.append(('activated no later than the start epoch', rt.epoch <= start))
+                P.append(('the sector outlives the deal', end <= se))
+            if isinstance(sm, MapM):
+                fp, fv = final_lookup(E, sm, kt)
+                P.append(('a deal state is recorded for the activated deal', fp is True))
+                if fp is True:
+                    fv = E.deref(fv)
+                    P.append(('activation epoch = current epoch; never settled, never slashed',
+                              z3.And(fget(E, fv, DSF['sector_start_epoch'], 'i64').v == rt.epoch, fget(E, fv, DSF['last_updated_epoch'], 'i64').v == -1,
+                                     fget(E, fv, DSF['slash_epoch'], 'i64').v == -1)))
+            else:
+                P.append(('deal states table written', False))
+    # failed sectors leave their deals un-activated (unless also named by a successful sector)
+    if isinstance(sm, MapM):
+        for i in sorted(failed_idx):
+            for d in ids[i]:
+                fp, _ = final_lookup(E, sm, ('int', d))
+                also = any_of([d == x for (_, _, x) in activated])
+                sb, _ = base_lookup(E, 'map(st.%d)' % ST['states'], ('int', d))
+                if fp is True and sb is not True:
+                    P.append(('a deal of a failed sector gains no state', also))
+    return P
+
+
+def bool_of(v):
+    if isinstance(v, bool):
+        return v
+    if isinstance(v, IntV):
+        return v.v != 0
+    if z3.is_expr(v):
+        return v
+    return False
+
+
 def build(tier):
     return [
+        Obligation('market.deal_proposal_is_internally_valid', run_auth, props_auth,
+                   descr='a proposal passes only if its client actor answered AuthenticateMessage successfully with `true`',
+                   bounds='one proposal; the nested send may succeed with any answer, fail or hit a syscall error', max_paths=2000),
+    ] + [
+        Obligation('market.batch_activate_deals[sector sizes %s]' % ','.join(map(str, sh)), run_batch_activate(sh), props_batch_activate,
+                   descr='each deal activated at most once per batch, only published + never-activated deals, by their provider, by the start epoch, in a sector that outlives them; state recorded',
+                   bounds='sectors with %s deal ids (all ids symbolic, may coincide); compute_cid = false; market tables arbitrary' % (sh,), max_paths=100000)
+        for sh in ([[1], [2], [3], [1, 1]] if tier == 'quick' else [[1], [2], [3], [1, 1], [2, 1], [1, 2]])
+    ] + [
         Obligation('market.validate_deal_can_activate', run_can_activate, props_can_activate,
                    descr='activation gate = provider match, epoch <= start, end <= sector expiry', bounds='all fields symbolic', max_paths=200, expect_ok=False),
         Obligation('market.generate_storage_deal_id x2', run_gen_id, props_gen_id, descr='ids strictly increasing, next_id advances', bounds='two calls', max_paths=200, expect_ok=False),
